@@ -5,9 +5,9 @@ from .recheck_mutants import MUT_C05
 PROP = "C05"
 EXPLANATION = (
     "Thin partial. The verdict itself is hash equality over all inputs and is not decidable statically. Decided is the "
-    "path mapping and reader/writer agreement that intact content needs: C05.1 find_root has exactly the two accepting "
-    "branches (the argument names the payload; the argument's listing contains the payload name) so root and parent "
-    "spelling are indistinguishable downstream; C05.2 v1: one path per info.files entry (padding entries included), in "
+    "path mapping and reader/writer agreement that intact content needs: C05.1 find_root returns the given path only on a name match, "
+    "<path>/<name> only when that entry exists, never a directory for a single-file metafile and never a second level for a directory torrent given by its own root, so root and parent "
+    "spelling are indistinguishable downstream; the single-file layout of a v2 file tree is recognised from the tree, not only from info.length; C05.2 v1: one path per info.files entry (padding entries included), in "
     "order, built from the entry's components; v2/hybrid: one path per file-tree leaf built from the accumulated keys; "
     "a hybrid is never checked through info.files (so an independent encoder's missing trailing padding entry cannot "
     "matter); C05.3 every read of a leaf key the creators omit for empty files is guarded, and the reader's piece-layer "
@@ -20,12 +20,14 @@ RULE_TEXT = "one obligation per mapping fact; shared iterator clauses re-labelle
 
 
 def run(ctx):
-    ctx.trust("hash equality on intact content is NOT decided; documented finding G22 (single-file v2 metafile without info.length) is outside every rule")
+    ctx.trust("hash equality on intact content is NOT decided")
     R.path_mapping(ctx, "C05.1")
     R.carried_buffer(ctx, "C05.2")
     R.stop_iteration_discipline(ctx, "C05.3")
     R.bookkeeping(ctx, "C05.4")
     R.recorded_piece_length(ctx, "C05.5")
+    R.recorded_hashes_verbatim(ctx, "C05.5")
+    R.reader_merkle_padding(ctx, "C05.5")
 
 
 MUTANTS = MUT_C05
@@ -33,7 +35,7 @@ QUICK_CANARIES = True
 CLAIM = {
     "text": "Thin partial: decides only that metafile entries are mapped to the right disk paths completely and in order for both content-path spellings, that readers tolerate what writers "
             "omit, and that the iteration cannot end before the last piece. 'Exactly 100%' additionally needs the hashers and extractors to be right, which is not claimed here. C05.4 = the bookkeeping shared with C04.1; C05.5: the piece length the checkers hash with is the metafile's recorded value itself.",
-    "note": "Not decided: the percentage itself. Known, documented-only finding G22 is not detected by any rule.",
+    "note": "Not decided: the percentage itself. G22 (single-file v2 metafile without info.length) and G29 (parent directory named like a single file) are repaired in /repo; the rules of C05.1 report both if they return.",
     "technique": "return-shape and accepting-test enumeration, must-pass-through in reader loops, control dependence, reader/writer key and predicate agreement",
     "design_ref": "DESIGN.md section 4, C05",
 }
